@@ -51,3 +51,10 @@ func (r *DNS) VerifCacheShiftLastMod(d time.Duration) {
 	}
 	r.DOH.mu.Unlock()
 }
+
+// VerifCacheHoldMu takes the DoH resolver's own mutex and returns the function releasing it
+// (burst admission of the cache area: queries started meanwhile enter the resolver together).
+func (r *DNS) VerifCacheHoldMu() func() {
+	r.DOH.mu.Lock()
+	return r.DOH.mu.Unlock
+}
